@@ -3,16 +3,14 @@ module verif/harness
 go 1.26
 
 require (
+	github.com/Azure/azure-pipeline-go v0.2.3
 	github.com/Azure/azure-storage-blob-go v0.13.0
 	github.com/google/uuid v1.2.0
 	github.com/mspnp/go-batcher v0.0.0
 	github.com/mspnp/go-batcher/v2 v2.0.0
 )
 
-require (
-	github.com/Azure/azure-pipeline-go v0.2.3 // indirect
-	github.com/mattn/go-ieproxy v0.0.1 // indirect
-)
+require github.com/mattn/go-ieproxy v0.0.1 // indirect
 
 replace github.com/mspnp/go-batcher => /repo
 
